@@ -7,7 +7,7 @@ LEAN_MODULES = ["SCP.C19", "SCP.LexerLang"]
 THEOREMS = ["SCP.C19." + t for t in """applyRule_lang tryPats_lang rulePass_lang ruleLoop_lang evalInfos_lang wordless_same parse_kind
 constants_complete duration_words_known operator_words months_complete formats_complete rules_subset""".split()] + \
     ["SCP.LexerLang.lexFull_lang", "SCP.LexerLang.lexText_lang"]
-RULE = ("word-by-word translation en -> every other configured language (currently tr) of: operator-word arithmetic (every alias word of both "
+RULE = ("word-by-word translation en -> every other configured language (currently tr) of: operator-word arithmetic (every alias word of both languages, lower-case, capitalised and upper-case; of both "
         "languages, chains of 2-5 operands, against the symbolic line too), durations (every keyword spelling, juxtaposed parts, + and -), dates "
         "with every month spelling of both languages in the spellings both languages have (d/m/y, 'd Mon y', 'd Mon'), date +- durations, "
         "today / tomorrow / yesterday; oracle: identical values; printed dates and durations of the translated line use only that language's own "
@@ -70,6 +70,17 @@ def cap(w):
     return w[0].upper() + w[1:] if w else w
 
 
+def recase(rng, w):
+    """operator words are matched on the lower-cased text: capitalised and upper-case spellings are spellings too (upper case only
+    where lower-casing gives the word back: 'ı' upper-cases to 'I', which lower-cases to 'i')"""
+    k = rng.random()
+    if k < 0.5:
+        return w
+    if k < 0.8 or "ı" in w:
+        return cap(w)
+    return w.upper()
+
+
 def gen_pair(rng, other):
     """returns (en_line, other_line, kind, extra)"""
     T = tables()
@@ -102,8 +113,8 @@ def gen_pair(rng, other):
         e, o, s = nums[0], nums[0], nums[0]
         for x in nums[1:]:
             op = rng.choice(ops_common)
-            e += f" {rng.choice(en['ops'][op])} {x}"
-            o += f" {rng.choice(ot['ops'][op])} {x}"
+            e += f" {recase(rng, rng.choice(en['ops'][op]))} {x}"
+            o += f" {recase(rng, rng.choice(ot['ops'][op]))} {x}"
             s += f" {op} {x}"
         return e, o, "opwords", s
     if k < 0.5:
